@@ -211,6 +211,8 @@ def point_in(pr, rng, q=None, rescale_prob=0.5):
     n = pr.point(spec.encode_point(q))
     if rng.random() < rescale_prob:
         lams = [2, P - 1, rng.randrange(2, P)]
+        # Z = lam differs from 1 only in high bits of a limb / in upper limbs: a truncated comparison with one sees "affine"
+        lams.extend([2**32 + 1, 1 + 5 * 2**91, 1 + 2**249, 1 + 2**51, 1 + 2**(51 * rng.randrange(1, 5) + rng.randrange(32, 51))])
         # representations in which one projective coordinate takes a special value (1, -1, a tiny number): the point is
         # the same, but code that looks at a raw coordinate instead of the affine one sees something else
         x, y = q
@@ -387,6 +389,23 @@ def gen_C01(rng, tier):
                 pr.emit("P.Bytes", v, pr.fresh("o"))
         pr.tag("multi-scalar calls with changing term counts")
         cases.append(pr)
+    # many terms: term counts around and beyond 64 (a per-term bit mask in a machine word, a fixed-size scratch array or a
+    # batch-size switch of algorithm would show only there); all points and scalars distinct so that a dropped term matters
+    for n in ([65, rng.choice([64, 66, 100, 129])] if tier != "thorough" else [63, 64, 65, 66, 100, 128, 129, 200]):
+        pr = Prog(rng)
+        base = [point_in(pr, rng) for _ in range(6)]
+        pts = list(base)
+        while len(pts) < n:
+            q = pr.point_zero()
+            pr.emit("P.Add", q, rng.choice(pts), rng.choice(base))
+            pts.append(q)
+        scs = [pr.scalar(rand_scalar(rng) if rng.random() < 0.8 else rng.choice([0, 1, L - 1])) for _ in range(n)]
+        for opn in ("P.MultiScalarMult", "P.VarTimeMultiScalarMult"):
+            v = pr.point_zero() if rng.random() < 0.6 else rng.choice(base)
+            pr.emit(opn, v, n, n, *scs[:n], *pts[:n])
+            pr.emit("P.Bytes", v, pr.fresh("o"))
+        pr.tag(f"multi-scalar calls with {n} terms")
+        cases.append(pr)
     if tier == "thorough":
         pr = Prog(rng)
         pr.emit("P.NewGenerator", "g")
@@ -483,6 +502,27 @@ def gen_C04(rng, tier):
         pr.emit("P.Bytes", v, pr.fresh("o"))
     pr.tag("points with tiny x or y")
     cases.append(pr)
+    # encodings whose y has saturated / nearly saturated / empty 51-bit limbs in every combination of positions: values just
+    # below p and 2^255 in some limbs only (a fold of the non-canonical range that looks at a subset of the limbs shows here)
+    pr = Prog(rng)
+    edge = [0, 1, 2**51 - 1, 2**51 - 19, 2**51 - 20, 2**51 - 2]
+    pats = []
+    for mask in range(32):
+        for l0 in (2**51 - 19, 2**51 - 18, 2**51 - 1, 2**51 - 20):
+            limbs = [l0] + [(2**51 - 1) if (mask >> i) & 1 else rng.choice([0, 1, rng.randrange(2**51), 2**51 - 2]) for i in range(1, 5)]
+            pats.append(limbs)
+    for _ in range(40):
+        pats.append([rng.choice(edge + [rng.randrange(2**51)]) for _ in range(5)])
+    if tier != "thorough":
+        pats = rng.sample(pats, 70)
+    for limbs in pats:
+        y = sum(l << (51 * i) for i, l in enumerate(limbs))
+        for sign in (0, 1):
+            v = pr.point_zero()
+            pr.emit("P.SetBytes", v, pr.bytes_(((y % 2**255) | (sign << 255)).to_bytes(32, "little")))
+            pr.emit("P.Bytes", v, pr.fresh("o"))
+    pr.tag("limb-pattern encodings (saturated / empty limbs)")
+    cases.append(pr)
     for _ in range(scale(tier, 6, 80)):
         pr = Prog(rng)
         for _ in range(20):
@@ -505,8 +545,35 @@ def gen_C04(rng, tier):
     return cases
 
 
-def gen_C05(rng, tier):
+
+def export_then_compute(rng, tier, readers):
+    """a caller reads a point's coordinates and computes with them IN PLACE (the field API reuses receivers), then goes on using
+    the point: the exported elements must be the caller's own copies"""
     cases = []
+    for _ in range(scale(tier, 2, 12)):
+        pr = Prog(rng)
+        for _ in range(3):
+            a = point_in(pr, rng)
+            X, Y, Z, T = (pr.fresh("c") for _ in range(4))
+            pr.emit("P.ExtendedCoordinates", a, X, Y, Z, T)
+            other = pr.elem(limbs=rand_limbs(rng))
+            ops = [("E.Negate", X, X), ("E.Negate", T, T), ("E.Multiply", Y, Y, other), ("E.Add", Z, Z, other), ("E.Square", X, X),
+                   ("E.Invert", Z, Z), ("E.Subtract", Y, other, Y), ("E.Set", T, other)]
+            for op in rng.sample(ops, rng.randrange(1, 4)):
+                pr.emit(*op)
+            for rd in readers:
+                pr.emit(rd, a, pr.fresh("o"))
+            pr.emit("P.show", a)
+            b = pr.point_zero()
+            pr.emit("P.Add", b, a, a)
+            pr.emit("P.Bytes", b, pr.fresh("o"))
+        pr.tag("export coordinates, compute in place with the exported elements, use the point again")
+        cases.append(pr)
+    return cases
+
+
+def gen_C05(rng, tier):
+    cases = export_then_compute(rng, tier, ["P.Bytes"])
     for _ in range(scale(tier, 10, 150)):
         pr = Prog(rng)
         q = rand_point(rng)
@@ -1363,7 +1430,7 @@ def gen_C16(rng, tier):
 
 
 def gen_C17(rng, tier):
-    cases = []
+    cases = export_then_compute(rng, tier, ["P.BytesMontgomery"])
     for _ in range(scale(tier, 8, 100)):
         pr = Prog(rng)
         q = rand_point(rng)
